@@ -14,7 +14,7 @@ ID = "C11"
 TITLE = "Dimensional collapse is detected per definition, applied exactly, reported once"
 PROPS_FILE = "Props/Properties_C11.v"
 LEVEL = "proof"
-SIZES = {"quick": 1300, "thorough": 16000}
+SIZES = {"quick": 2200, "thorough": 24000}
 PARALLEL = True
 SHARD = 220
 COQ_TIMEOUT = 900
@@ -266,7 +266,7 @@ def _gen_solve(rng, i, tier):
 
 
 def generate(rng, n, tier):
-    nsolve = 28 if tier == "quick" else 260
+    nsolve = 40 if tier == "quick" else 400
     kinds = ["at"] * 6 + ["as"] * 6 + ["weight"] * 3 + ["position"] * 3 + ["impose"] * 4 + ["cost"]
     stride = max(1, n // nsolve)
     for i in range(n):
@@ -624,7 +624,7 @@ def _run_solve(case):
         terms.append(CollapseAt(t[1], t[2], t[3]) if t[0] == "at" else CollapseAs(t[1], t[2], t[3]))
     raw = _cost_fn(case)
     log, events = [], []
-    deadline = time.time() + 25.0
+    deadline = time.time() + 12.0
 
     def cost(x):
         if time.time() > deadline:
@@ -774,6 +774,30 @@ def _def_as(case):
     return out
 
 
+def _def_measure(case):
+    """documented definition of collapse_weight / collapse_position for the regular layout (all measures have k points:
+    measure m occupies x[2mk : 2mk+k] (weights) and x[2mk+k : 2mk+2k] (positions)); None = not covered here"""
+    npts, hist = case["npts"], case["hist"]
+    if len(set(npts)) != 1 or not hist or any(len(r) < 2 * sum(npts) for r in hist):
+        return None
+    w = _window(hist, case["gens"])
+    if not w:
+        return None
+    k, nm, tol = npts[0], len(npts), case["tol"]
+    out = []
+    for m in range(nm):
+        if case["kind"] == "weight":
+            for i in range(k):
+                if max(r[2 * m * k + i] for r in w) <= tol:
+                    out.append([m, i])
+        else:
+            for a in range(k):
+                for b in range(a + 1, k):
+                    if max(abs(r[2 * m * k + k + a] - r[2 * m * k + k + b]) for r in w) <= tol:
+                        out.append([m, [a, b]])
+    return out
+
+
 def _as_masked(mask, p):
     for e in mask:
         if isinstance(e, list):
@@ -795,6 +819,13 @@ def _oracle_term(case, obs, out, site):
         return
     rep = t.get("reported")
     det = obs.get("det")
+    lg, g = case.get("lg", len(case["hist"])), case["gens"]
+    detv0 = det if case["kind"] in ("at", "as") else (det[1] if isinstance(det, list) else det)
+    if isinstance(g, int) and "reported" in t:
+        # the wrapper reports iff the history is longer than the look-back and the detector result is non-empty
+        should = lg > 0 and lg > g and isinstance(detv0, list) and len(detv0) > 0
+        if should != (rep is not None) and not isinstance(det, dict):
+            out.append(_fail("termination_reports_detector_result", site, "guard", dict(lg=lg, generations=g, det=det, reported=rep)))
     if rep is None:
         return
     # message round trip: what collapsed(message) yields is exactly what the detector returned
@@ -868,6 +899,12 @@ def oracle(case, obs):
             want_fmt = {"none": "dict", "dict": "dict", "set": "set", "where": "where", "wherelist": "where", "whereinner": "where"}.get(case["mask"]["fmt"])
             if want_fmt and fmt != want_fmt:
                 out.append(_fail("mask_format_kept", "collapse.collapse_" + k, "format", det))
+            defn = _def_measure(case)
+            if defn is not None and case["mask"]["fmt"] != "bad":
+                mk = case["mask"]["entries"] if case["mask"]["fmt"] != "none" else []
+                want = [e for e in defn if e not in mk and not (k == "position" and [e[0], e[1][::-1]] in mk)]
+                if sorted(want) != ent:
+                    out.append(_fail("detector_is_definition", "collapse.collapse_" + k, "wrong-set", dict(want=want, got=ent)))
             for e in ent:   # nothing in the mask is reported (positions: in either orientation)
                 for m in (case["mask"]["entries"] if case["mask"]["fmt"] not in ("none", "bad") else []):
                     if e == m or (k == "position" and e[0] == m[0] and e[1] == m[1][::-1]):
